@@ -57,29 +57,29 @@ def verify_cfg(F, R):
         pat = re.search(r'builder::(\w+)::', f.id).group(1)
         compared = set()
         ncmp = 0
-        for s in f.sites:
-            a = b = op = None
-            if s.i != 'T' and s.node[0] == 'a' and s.node[2][0] == 'bin' and s.node[2][1] in ('Lt', 'Le', 'Gt', 'Ge', 'Eq', 'Ne'):
-                op = s.node[2][1]
-                a, b = sym_nstr(sym(f, s.node[2][2])), sym_nstr(sym(f, s.node[2][3]))
-            elif s.is_call and re.search(r'core::cmp::Partial(Eq|Ord)', s.callee_orig or '') and len(s.args) == 2:
-                op = s.callee_orig.rsplit('::', 1)[-1]
-                a, b = sym_nstr(sym(f, s.args[0])), sym_nstr(sym(f, s.args[1]))
-            if op is None:
-                continue
-            if 'existing_service_config' not in a and 'existing_service_config' not in b:
-                continue
-            ncmp += 1
-            fa, fb = last_field(a), last_field(b)
-            key = 'SIBLINGS::%s::same-field::%s' % (fnkey(f), fa or fb)
-            ok = fa is not None and fa == fb and 'existing_service_config' in a and 'service_config' in b and 'existing_service_config' not in b
-            R.ob('SIBLINGS', key, ok, 'comparison `%s %s %s`: both sides must read the same field, existing settings on the left, required on the right' % (a, op, b), s.where, f)
-            if fa:
-                compared.add(fa)
-            if op in ('Lt', 'lt'):
-                pass
-            elif op in ('Gt', 'Ge', 'Le', 'gt', 'ge', 'le'):
-                R.ob('SIBLINGS', 'SIBLINGS::%s::comparison-direction::%s' % (fnkey(f), fa), False, 'requirement tests are written `existing < required`; found %s' % op, s.where, f)
+        # every refusal (error exit) is judged by the condition under which it is reached, normalised (polarity of the branch applied, so
+        # `if e < r { fail }`, `if r > e { fail }` and `if e >= r { return Ok } fail` are the same refusal) and oriented existing-vs-required
+        # by provenance: the existing side derives from the parameter that carries the stored StaticConfig, the required side from self
+        ex = r'\$%d\b' % lib.param_index_ty(f, 'existing_service_config', 3, r'static_config::StaticConfig$')
+        for e in f.err_exit_sites():
+            for c in lib.path_conds(f, e, F):
+                sp = lib._split_top(lib.canon(f, c))
+                if not sp:
+                    continue
+                a, op, b = sp
+                if not (re.search(ex, a) or re.search(ex, b)):
+                    continue
+                if re.search(ex, b) and not re.search(ex, a):
+                    a, op, b = b, lib._FLIP[op], a
+                ncmp += 1
+                fa, fb = last_field(a), last_field(b)
+                key = 'SIBLINGS::%s::same-field::%s' % (fnkey(f), fa or fb)
+                ok = fa is not None and fa == fb and not re.search(ex, b) and 'self' in b
+                R.ob('SIBLINGS', key, ok, 'refusal under `%s %s %s`: both sides must read the same field, one of the existing service, one of the requirement' % (a[:90], op, b[:90]), e.where, f)
+                if fa:
+                    compared.add(fa)
+                R.ob('SIBLINGS', 'SIBLINGS::%s::comparison-direction::%s' % (fnkey(f), fa), op in ('<', '!='), 'the open is refused when `existing %s required`; allowed: `<` (the service offers less than required; equal suffices) or `!=` (settings that must match)' % op, e.where, f)
+                break    # nearest guard only
         R.ob('SIBLINGS', 'SIBLINGS::%s::has-comparisons' % fnkey(f), ncmp >= 2, '%d field comparisons found' % ncmp, '%s:%s' % (f.file, f.line), f)
         sc = F.adts.get('iceoryx2::service::static_config::%s::StaticConfig' % pat)
         if sc is None:
@@ -155,7 +155,8 @@ def drop_rules(F, R):
         R.missing('Drop for ServiceState')
         return
     d = ds[0]
-    cl = [c for c in F.closures_of(d) if c.calls(r'DynamicConfig::deregister_node_id$')]
+    # the last-handle body: the closure handed to registered_services().remove() or a private helper of ServiceState it delegates to
+    cl = [c for c in lib.family(F, d) if c.calls(r'DynamicConfig::deregister_node_id$')]
     if len(cl) != 1:
         R.missing('ServiceState::drop closure with deregister_node_id')
         return
